@@ -820,11 +820,11 @@ def rule_h(res: Results, idx: Index) -> None:
             continue
         def is_clear(e: ast.AST) -> bool:
             return (isinstance(e, ast.Attribute) and e.attr == "clear_caches") or (isinstance(e, ast.Call) and (call_name(e) or "").endswith("clear_caches"))
-        # exit: `stack.callback(jax.clear_caches)` registered BEFORE the patches are entered (LIFO: runs after they are undone),
+        # exit: `stack.callback(jax.clear_caches)` registered before the yield (runs while the stack unwinds),
         # or a `finally:` that calls it after the with-block
         exit_ok = None
         for c in walk_no_nested(f.node):
-            if isinstance(c, ast.Call) and isinstance(c.func, ast.Attribute) and c.func.attr == "callback" and c.args and is_clear(c.args[0]) and c.lineno < patches[0].lineno:
+            if isinstance(c, ast.Call) and isinstance(c.func, ast.Attribute) and c.func.attr == "callback" and c.args and is_clear(c.args[0]) and c.lineno < yields[0].lineno:     # nothing is traced while the stack unwinds: any position before the yield is equivalent
                 exit_ok = c
         for t in walk_no_nested(f.node):
             if isinstance(t, ast.Try) and t.finalbody and any(is_clear(x) for st in t.finalbody for x in ast.walk(st) if isinstance(x, ast.Call)) and any(y in list(ast.walk(t)) for y in yields):
